@@ -1,2 +1,2 @@
-import Cinco.Basic.Tree
-import Cinco.TreeIO.Include
+import Cinco.Props.C04
+import Cinco.Props.C18
